@@ -291,3 +291,26 @@ func LinkFocused(r *fw.Rand) []TarEntry {
 	}
 	return out
 }
+
+// CooperatingAlphabet is a small focused alphabet for exhaustive ordered
+// triples (and PRNG longer sequences): links that are individually valid but
+// physically lead to the parent of dst ("m -> ." with "l -> m/..",
+// "sub/p -> .."), real directories, and entries whose names pass through
+// those links - also behind a "missing/.." prefix, and into directories that
+// already exist outside dst.
+func CooperatingAlphabet() []TarEntry {
+	f := func(name string) TarEntry {
+		return TarEntry{Name: name, Type: "file", Mode: 0600, Mtime: 1500000100, Body: "PWNED-" + name}
+	}
+	d := func(name string) TarEntry { return TarEntry{Name: name, Type: "dir", Mode: 0700, Mtime: 1500000101} }
+	l := func(name, target string) TarEntry {
+		return TarEntry{Name: name, Type: "link", Link: target, Mode: 0777, Mtime: 1500000102}
+	}
+	return []TarEntry{
+		l("m", "."), l("l", "m/.."), l("sub/p", ".."), l("sub/q", "p/.."), l("k", "l/sib"),
+		d("x/"), d("sub/"), d("sib/"),
+		f("l/sib/pwn"), f("zz/../l/sib/pwn"), f("l/secret"), f("zz/../l/secret"), f("sub/p/x/f"), f("zz/../sub/p/x/f"), f("k/pwn2"), f("sub/q/secret"), f("./zz/../sub/q/sib/keep"),
+		d("l/sib/newdir"), d("zz/../l/sib"), d("sub/q/sib/"),
+		l("sub/p/x/l2", "../.."), l("zz/../sub/p/x/l2", "../.."), l("l/sib/l3", "../secret"), l("zz/yy/../../l/l4", "secret"),
+	}
+}
